@@ -13,7 +13,7 @@ use ts_rs::verif;
 use super::fsutil::{clear_dir, declared_names, files_only, norm_rel, run_op, snapshot, tree_json, Op, OpKind, Outcome, Tree};
 use crate::{guarded, rng::Rng, Args, Log, TypeEntry};
 
-pub const UNIVERSE: &[&str] = &["UA", "UB", "UC", "UD", "UE", "UF", "UG", "UGx", "UH", "UI"];
+pub const UNIVERSE: &[&str] = &["UA", "UB", "UC", "UD", "UE", "UF", "UG", "UGx", "UG2", "UH", "UI"];
 
 #[derive(Clone, Debug)]
 pub struct Config {
